@@ -152,10 +152,25 @@ enum Acc {
     Include(usize),
 }
 
+thread_local! {
+    static WRITES: std::cell::Cell<u32> = const { std::cell::Cell::new(0) };
+}
 fn read_as(m: &ModuleRef, t: Ty) -> Result<Option<String>, String> {
     fn go<T: des::net::module::PropType + Clone + std::fmt::Debug>(m: &ModuleRef) -> Result<Option<String>, String> {
         match m.prop::<T>("x") {
-            Ok(p) => Ok(p.get().map(|v| format!("{v:?}"))),
+            Ok(p) => {
+                let got = p.get().map(|v| format!("{v:?}"));
+                // the other read accessors agree with get()
+                let mapped = p.map(|o| o.map(|v| format!("{v:?}")));
+                assert_eq!(mapped, got, "Prop::map and Prop::get disagree");
+                let up = m.prop::<T>("x").ok().and_then(|q| q.upgrade());
+                assert_eq!(up.is_some(), got.is_some(), "Prop::upgrade and Prop::get disagree on presence");
+                if let Some(u) = up {
+                    assert_eq!(Some(format!("{:?}", u.get())), got, "get() of the upgraded handle");
+                    assert_eq!(Some(u.map(|v| format!("{v:?}"))), got, "map() of the upgraded handle");
+                }
+                Ok(got)
+            }
             Err(e) => Err(e.to_string()),
         }
     }
@@ -172,7 +187,14 @@ fn write_as(m: &ModuleRef, t: Ty) -> Result<String, String> {
         match m.prop::<T>("x") {
             Ok(p) => {
                 let mut p = p.or(v.clone());
-                p.set(v.clone());
+                // set and update, in turn
+                if WRITES.with(|w| w.replace(w.get() + 1)) % 2 == 0 {
+                    p.set(v.clone());
+                } else {
+                    let v2 = v.clone();
+                    p.update(move |x| *x = v2);
+                }
+                assert_eq!(format!("{:?}", p.get()), format!("{v:?}"), "value read back through the writing handle");
                 Ok(format!("{v:?}"))
             }
             Err(e) => Err(e.to_string()),
